@@ -368,6 +368,13 @@ theorem records_values_labelled_wf (old : Emu) {new : Emu} (hw : WF new.flushAll
         exact (emitView_mem _ _ _ _ _ _ l2 hl2 r hm2).1
     rw [hf] at hfile; cases hfile
 
+/-- **`emit`'s zero rule is the only failure of the record emission**: `records` fails only with
+    "forbidden value 0" — an integer 0 (after PRV_NEXT) on a type without PRV_ZERO; under
+    `NoZeroIds` and for the events of the ovni model it does not fail at all
+    (`records_total_of_wf`, C04 `records_total`, C05 `records_total_affinity`). -/
+theorem records_error_only_zero {old new : Emu} {err : Err} (h : records old new = .error err) :
+    err = .prvZero := records_error h
+
 section
 variable (th mh : Emu → Nat → Nat → Nat → List Nat → Except Err Emu)
 
